@@ -56,7 +56,7 @@ theorem validate_accepts_iff_sat_partial (T : ScopeTable) (S : Schema) (D : Fram
 all-null `float64` column is accepted although the dtype differs -/
 theorem K_C01_strVacuous_witness :
     ∃ (S : Schema) (D : Frame), D.WF = true ∧ ¬ NoK_C01 S D ∧
-      accepts ⟨none, none, none, none, none, none, none, none, none⟩ .schemaAndData S D = true ∧
+      accepts ⟨none, none, none, none, none, none, none, none, none, none⟩ .schemaAndData S D = true ∧
       ¬ Spec.Sat S D :=
   ⟨{ columns := [{ name := some "a", dtype := some .str, nullable := true }] },
    { cols := [⟨"a", .float64, [.null]⟩], index := [⟨none, .int64, [.int 0]⟩], nrows := 1 },
